@@ -178,12 +178,30 @@ def make_case(ctx, g):
         adoption_scenario(ctx, g, w, fails, flags)
     b = DocBuilder(g, w, repeat_id=0.35, malformed=0.02)
     docs = []
+    roots_extra = []
     for _ in range(g.rng.randint(1, 2)):
         d, _scopes = b.random_document(n_records=g.rng.randint(1, 6))
         if g.chance(0.15) and b.lookalike(d):
             flags.add("lookalike-names")
+        if g.chance(0.15) and b.many_defaults(d):
+            flags.add("several-default-namespaces")
+            # records that arrive through flattened() are found under the URI they had where they came from
+            src_uris = []
+            for cobj in [w.conts[d]] + list(w.conts[d].bundles):
+                src_uris += [r.identifier.uri for r in cobj.records if r.identifier is not None]
+            fh, _e = w.flattened(d)
+            if fh is not None and fh != d:
+                for u in sorted(set(src_uris))[:6]:
+                    if ":" not in u:
+                        continue
+                    w.get_record(fh, u)
+                    got_n = len(w.outs[-1]["recs"] or [])
+                    if got_n != src_uris.count(u):
+                        fails.append(Failure("oracle", None, "flattened(): get_record(%r) finds %d record(s); the document and its bundles "
+                                             "hold %d under that URI" % (u, got_n, src_uris.count(u)), {"ops": list(w.ops)}))
+                roots_extra.append(fh)
         docs.append(d)
-    roots = list(docs)
+    roots = list(docs) + roots_extra
     for _ in range(g.rng.randint(0, 4)):
         h = derive_step(g, w, b, docs)
         if h is not None:
